@@ -212,6 +212,103 @@ def gen_engine(rng, exact=None, activation="general", n_in=None, batch_ok=False,
     return {"exact": exact, "inputs": inputs, "outputs": outputs, "blocks": blocks}
 
 
+def gen_chained(rng, exact=None, activation="general"):
+    """C01: `an output variable used in an antecedent sees exactly the contributions accumulated so far` - at EVERY
+    position of the rule in its block.  A rule block is an arbitrary sequence of rules: antecedents (the same text, the
+    same parentheses) and whole rules may occur several times, and the rules in between may conclude the very term such
+    an antecedent reads, so two rules with one antecedent text generally have different degrees.  The first block of a
+    generated engine is rebuilt as a random interleaving of
+      writers  `if <inputs> then out is [hedge] T [with w]`   (contributions to ONE term T of one output variable) and
+      readers  `if <A> then ...` whose antecedent A reads `out is [hedges] T`, alone or and/or-ed with an input
+               proposition; the readers of a block share one or two distinct antecedents;
+    one rule is sometimes repeated verbatim further down."""
+    import copy
+    desc = gen_engine(rng, exact=exact, activation=activation)
+    exact = desc["exact"]
+    outs = desc["outputs"]
+    src = rng.choice(outs)
+    src["enabled"] = True
+    b = desc["blocks"][0]
+    b["enabled"] = True
+    target = rng.choice(src["terms"])["name"]
+
+    def reader():
+        p = ["prop", src["name"], hedge_chain(rng, exact, rng.choice([0, 0, 1]), allow_sqrt=False), target]
+        if rng.random() < 0.4:
+            q = gen_ante(rng, desc["inputs"], [], 0, exact)
+            p = [rng.choice(["and", "or"])] + ([p, q] if rng.random() < 0.5 else [q, p])
+        return p, rng.randrange(1 << 30)
+
+    readers = [reader() for _ in range(rng.choice([1, 1, 2]))]
+    rules = []
+    for k in range(rng.randint(4, 7)):
+        if k == 0 or rng.random() < 0.45:
+            ante, seed = gen_ante(rng, desc["inputs"], [], rng.choice([0, 0, 1]), exact), rng.randrange(1 << 30)
+            concl = {"var": src["name"], "hedges": hedge_chain(rng, exact, rng.choice([0, 0, 0, 1]), allow_sqrt=False),
+                     "term": target}
+        else:
+            ante, seed = rng.choice(readers)
+            ov = rng.choice(outs)
+            concl = {"var": ov["name"], "hedges": hedge_chain(rng, exact, rng.choice([0, 0, 0, 1]), allow_sqrt=False),
+                     "term": rng.choice(ov["terms"])["name"]}
+        rules.append({"enabled": rng.random() < 0.95, "weight": rng.choice([1.0, 1.0, 0.5, 0.25, 0.75]),
+                      "ante": copy.deepcopy(ante), "concls": [concl], "paren_seed": seed})
+    if rng.random() < 0.5:
+        j = rng.randrange(len(rules))
+        rules.insert(rng.randint(j + 1, len(rules)), copy.deepcopy(rules[j]))
+    b["rules"] = rules
+    return desc
+
+
+def gen_saturated(rng, exact=None):
+    """C01: `the contributions to a variable are combined with its aggregation operator and defuzzified ... over its
+    range` - ALL of them, in order, with every registered S-norm.  S(1, b) = 1 holds for some S-norms only (not for
+    UnboundedSum or NormalizedSum), so a fuzzy output that already equals 1 over the whole range still has to take in
+    the contributions that follow.  An output variable with an integral defuzzifier gets a term that is 1 on the whole
+    range (Rectangle / Trapezoid / Binary / saturated Ramp reaching beyond both bounds) and a rule that concludes it
+    with degree exactly 1 (weight 1; antecedent `any`, or an input term that is 1 on and beyond the input's range), at
+    any position of the first block, once or twice, with at least one further contribution to the variable after it;
+    the aggregation is drawn from every S-norm of the family, UnboundedSum included."""
+    desc = gen_engine(rng, exact=exact, activation="general", weighted=False)
+    exact = desc["exact"]
+    ov = rng.choice(desc["outputs"])
+    ov["enabled"] = True
+    lo, hi = ov["min"], ov["max"]
+    w = hi - lo
+    cls, ps = rng.choice([("Rectangle", [lo - w, hi + w]), ("Trapezoid", [lo - 2 * w, lo - w, hi + w, hi + 2 * w]),
+                          ("Binary", [lo - w, math.inf]), ("Ramp", [lo - 2 * w, lo - w]), ("Rectangle", [lo, hi])])
+    full = {"name": f"{ov['name']}full", "kind": "shape", "cls": cls, "params": ps, "height": 1.0}
+    ov["terms"].append(full)
+    ov["aggregation"] = rng.choice(EXACT_S if exact else CONT_S)
+    iv = rng.choice(desc["inputs"])
+    if rng.random() < 0.5:
+        ante = ["prop", iv["name"], ["any"], None]
+    else:
+        iv["enabled"] = True
+        ilo, ihi = iv["min"], iv["max"]
+        iw = ihi - ilo
+        iv["terms"].append({"name": f"{iv['name']}full", "kind": "shape", "cls": "Rectangle",
+                            "params": [ilo - 4 * iw, ihi + 4 * iw], "height": 1.0})
+        ante = ["prop", iv["name"], [], f"{iv['name']}full"]
+    b = desc["blocks"][0]
+    b["enabled"] = True
+    sat = {"enabled": True, "weight": 1.0, "ante": ante,
+           "concls": [{"var": ov["name"], "hedges": [], "term": full["name"]}], "paren_seed": rng.randrange(1 << 30)}
+    at = rng.randint(0, len(b["rules"]))
+    b["rules"].insert(at, sat)
+    if rng.random() < 0.3:
+        import copy
+        b["rules"].insert(rng.randint(at + 1, len(b["rules"])), copy.deepcopy(sat))
+    # at least one further contribution to the saturated variable after the saturating rule
+    for _ in range(rng.choice([1, 1, 2])):
+        t = rng.choice(ov["terms"][:-1])
+        b["rules"].append({"enabled": True, "weight": rng.choice([1.0, 1.0, 0.5, 0.25, 0.75]),
+                           "ante": gen_ante(rng, desc["inputs"], [], rng.choice([0, 0, 1]), exact),
+                           "concls": [{"var": ov["name"], "hedges": [], "term": t["name"]}],
+                           "paren_seed": rng.randrange(1 << 30)})
+    return desc
+
+
 def rule_text(rule):
     import random
     rng = random.Random(rule["paren_seed"])
